@@ -279,6 +279,7 @@ func netC03(s *Sink, tier string) {
 			s.Fail(map[string]any{"op": "net-reply", "path": "broadcast", "strays": n}, fmt.Sprintf("after %d datagrams from other controllers the call did not wait for the addressed controller's reply, which came %d ms into a 1500 ms timeout (%v)", n, time.Since(t0).Milliseconds(), err))
 		}
 	}
+	samePortReply(s, 300*time.Millisecond)
 	s.Extra["net_calls"] = calls
 	s.Extra["net_malformed_accepted"] = accepted
 }
